@@ -65,9 +65,18 @@ CLAIMS = {
         'behaviours and random scripts (failures of the observed processor, non-grid intervals) run on the real PeriodicSensor / '
         'OutputPartSensor / Cms with a real line, and TLC validates every recorded step against SensorsTrace.tla.',
    technique='TLA+ closed spec model-checked with TLC + TLC trace validation of real sensor runs'),
+ 'C20': dict(engine='lifecycle', ref='DESIGN.md 6 (C20), 3.3',
+   text='TLC model-checks the closed lifecycle specification LifecycleMC (system creations, asset creations before the first run, '
+        'between runs and from inside events, simulate calls on current and superseded systems, look-ups with all filter combinations) '
+        'against initialised-at-most-once, initialised-once-simulated, registration-is-forever and only-the-latest-runs; the behaviours '
+        'over all twelve asset kinds and random scripts run on the real System and asset classes (Asset.initialize wrapped to count '
+        'calls) and TLC validates every recorded line against LifecycleTrace.tla; for every kind a late-created asset is compared with '
+        'its twin created before the start (recorded data, counters, callback logs).',
+   technique='TLA+ closed spec model-checked with TLC + TLC trace validation of real System/asset lifecycle scripts + late-vs-twin scenario pairs'),
 }
 
 ENGINES = {
+ 'lifecycle': dict(name='lifecycle', path='harness/p_lifecycle.py', kind_free_text='Lifecycle.tla / LifecycleMC.tla / LifecycleTrace.tla; harness/component.py; driver harness/lifecycle_driver.py'),
  'sched': dict(name='sched', path='harness/p_sched.py', kind_free_text='Sched.tla / SchedMC.tla / SchedTrace.tla; harness/component.py; driver harness/sched_driver.py'),
  'sensors': dict(name='sensors', path='harness/p_sensors.py', kind_free_text='Sensors.tla / SensorsMC.tla / SensorsTrace.tla; harness/component.py; driver harness/sensors_driver.py'),
  'maint': dict(name='maint', path='harness/p_maint.py', kind_free_text='Maint.tla / MaintMC.tla / MaintTrace.tla; generic component pipeline harness/component.py; driver harness/maint_driver.py'),
